@@ -231,6 +231,37 @@ Fixpoint seval (e : expr) (fr : frame) (g : glob) {struct e} : res eout :=
       | Res (EV _) fr g => Res (EX (VErr "not callable")) fr g
       | r => r
       end
+  | EProp e =>
+      match seval e fr g with
+      | Res (EV v) fr g =>
+          match obj_id v with
+          | Some i => Res (EV (hget i (gheap g))) fr g
+          | None => Res (EX (VErr "property of a non-object")) fr g
+          end
+      | r => r
+      end
+  | ESetProp e w =>                                   (* the value first, then the object (BinaryAssign) *)
+      match seval w fr g with
+      | Res (EV wv) fr g =>
+          match seval e fr g with
+          | Res (EV v) fr g =>
+              match obj_id v with
+              | Some i => Res (EV wv) fr (set_prop i wv g)
+              | None => Res (EX (VErr "property of a non-object")) fr g
+              end
+          | r => r
+          end
+      | r => r
+      end
+  | EHi e =>
+      match seval e fr g with
+      | Res (EV v) fr g =>
+          match obj_id v with
+          | Some i => Res (EV (VStr ("hi" ++ to_str (hget i (gheap g))))) fr g
+          | None => Res (EX (VErr "method call on a non-object")) fr g
+          end
+      | r => r
+      end
   | EMatch s m =>                                     (* MatchStatement.GetValue *)
       match seval s fr g with
       | Res (EV v) fr g => seval_arms v m fr g
@@ -550,6 +581,9 @@ Fixpoint sexec (n : nat) (vs : list string) (fn : string) (s : stmt) (fr : frame
                 end
             end
         end
+    | SIfInst x T t e =>                                          (* IfStatement over InstanceOfExpression *)
+        if (match srd vs fn x fr g with VObj _ _ _ => cm T (srd vs fn x fr g) | _ => false end)
+        then sexec n' vs fn t fr g else sexec n' vs fn e fr g
     | SThrow e =>                                                 (* ThrowStatement.GetValue *)
         match ev e fr g with
         | Res (EV v) fr g => Res (IThrow (thrown_of v)) fr g
